@@ -14,9 +14,11 @@ POOL = ["0", "1", "(-1)", "2", "9223372036854775807", "(-9223372036854775807-1)"
         "%{}", "%{1: 2}", '%{"a": [1]}', "(1:3)", "(3:1:-1)", "(1:10:0)", "(nil:nil)", '("a":"c")', "(1:nil)", "((-1):1:9223372036854775807)", '("":?c)', "{|x| x}",
         "{|x, y| y}", "m{self}", "<{|x| yield x}>", "[1, 2]._iter", "nil", "true", "false", "Int", "Str", "Arr", "Obj", "BaseObj", "Map", "Range", "Func", "Iter",
         "Iterable", "Comparable", "Wrappable", "Kernel", "JSON", "Either", "EitherVal", "EitherErr", "Err", "TypeErr", "FileNotFoundErr", "StopIterErr", "Diamond",
-        "1.try", "1.try.nosuchprop", "1.try.nosuchprop.err", "_", "'sym", "?c", "`raw`", "<>", "Int.bear.new(3)", "Str.bear.new(\"s\")", "{a: 1}.bear({b: 2})"]
+        "1.try", "1.try.nosuchprop", "1.try.nosuchprop.err", "_", "'sym", "?c", "`raw`", "<>", "Int.bear.new(3)", "Str.bear.new(\"s\")", "{a: 1}.bear({b: 2})",
+        # floats that no literal can spell: not-a-number and the infinities
+        "((-8.0) ** 0.5)", "(1.0e308 * 10.0)", "(-1.0e308 * 10.0)", "(0.0 * -1.0)"]
 SUB12 = ["0", "(-1)", "9223372036854775807", '""', '"abc"', "[]", "[1, 2, 3]", "{a: 1}", "nil", "(1:3)", "{|x| x}", "Int", '"("']
-SUB25 = SUB12 + ["1", "1.5", '"日本語"', "[nil]", "%{1: 2}", "(3:1:-1)", "true", "Str", "Obj", "1.try", "_", "'sym", "(-9223372036854775807-1)"]
+SUB25 = SUB12 + ["((-8.0) ** 0.5)", "(1.0e308 * 10.0)", "1", "1.5", '"日本語"', "[nil]", "%{1: 2}", "(3:1:-1)", "true", "Str", "Obj", "1.try", "_", "'sym", "(-9223372036854775807-1)"]
 SKIP = {"exit", "serve", "serveBackground", "import", "invite!", "readline", "readlines"}
 BAD_TOKENS = ['"abc', "\\", "#{", "`x", "'", "?", "\\9", "0x", "1e", '"a#{', "}", ")", "]", "|", "^", "**", "=>", ":=", "@", "$", "&.", "~@", "=@"]
 
